@@ -142,7 +142,9 @@ func runC20(c *Ctx) {
 	prefConst := func(name string) string {
 		sp := p.SSAPkg[modPkg("client")]
 		if cst := sp.Pkg.Scope().Lookup(name); cst != nil {
-			if k, ok := cst.(interface{ Val() interface{ String() string } }); ok {
+			if k, ok := cst.(interface {
+				Val() interface{ String() string }
+			}); ok {
 				return k.Val().String()
 			}
 		}
@@ -200,7 +202,9 @@ func runC20(c *Ctx) {
 			et := p.TermOf(RetVal(ret, 1))
 			if et.Op == "global" && strings.HasSuffix(et.Name, "ErrPrimaryDead") {
 				cs := p.CondsAt(b)
-				ok = hasCond(cs, func(k Cond) bool { return k.Pol && k.Atom.Op == "call" && k.Atom.Fn != nil && k.Atom.Fn.Name() == "IsDead" })
+				ok = hasCond(cs, func(k Cond) bool {
+					return k.Pol && k.Atom.Op == "call" && k.Atom.Fn != nil && k.Atom.Fn.Name() == "IsDead"
+				})
 			}
 		}
 		c.Check(ok, "R1", "topology.Primary:dead", pr.Pos(), "a dead primary is reported as ErrPrimaryDead", "topology.Primary no longer reports a dead primary with ErrPrimaryDead")
